@@ -121,13 +121,26 @@ class Engine:
                     sorted_locals.add((r[0], tuple(r[1][:1])))
                     if not r[1]:
                         sorted_locals.add((r[0], ()))
-                p = FL.op_place(args[0])
-                if p is not None:
-                    for x in fl.pts.get(p[0], ()):
+                # the receiver is usually `&mut [T]` obtained through deref_mut(&mut vec): every container
+                # local in the receiver's backward slice counts as sorted
+                seen_s, _ = fl.back_slice(FL.op_locals(args[0]), stop_at_calls=lambda cc: not L.is_call_to(cc, ["deref_mut", "deref", "as_mut_slice", "as_mut", "borrow_mut", "iter_mut"]))
+                for x in seen_s:
+                    t = fn.locals[x].lstrip("&").replace("mut ", "")
+                    if t.startswith(SEQ_SINK_COLLECT) or t.startswith("["):
                         sorted_locals.add((x, ()))
         sinks = []
         changed = True
         rounds = 0
+        loops0 = g.loops()
+        loop_driver_blocks = set()
+        backs = g.back_edges()
+        for h, body in loops0.items():
+            latches = [s_ for s_, hh in backs if hh == h]
+            for bb in body:
+                t = fn.term(bb)
+                if t[0] == "call" and L.is_call_to(t[1], ["Iterator::next", "DoubleEndedIterator::next_back"]):
+                    if latches and all(g.dominates(bb, l) for l in latches):
+                        loop_driver_blocks.add(bb)
 
         def mark(l, why):
             nonlocal changed
@@ -190,6 +203,8 @@ class Engine:
                 if r in self.ret_ord and name not in SORTS:
                     mark(dest[0], "%s returns hash-ordered data (%s)" % (L.short(r), self.ret_ord[r]))
                     continue
+                if b in loop_driver_blocks and name in ("next", "next_back"):
+                    continue   # the element of a for-loop is an ordinary value; only effects in the body matter
                 argw = None
                 argi = None
                 for i, a in enumerate(args):
@@ -234,7 +249,10 @@ class Engine:
                                     self.global_changed = True
                             else:
                                 mark(r0[0], argw)
-                # result
+                # result: std/external callees (iterator adaptors, collect, join, format ...) propagate;
+                # crate-local callees only through their own return summary (handled above)
+                if (c.get("r") or "") in facts.fns and not (c.get("r") or "").endswith("}"):
+                    continue
                 if (dest[0], ()) not in sorted_locals:
                     kind = "choice " + name if name in CHOICE else name
                     mark(dest[0], argw if name not in CHOICE else "%s over %s" % (name, argw))
